@@ -97,6 +97,7 @@ SqueezeWhy(o, res) ==
 EventWhy(o, ev) ==
   \* the three maps return new objects: the harness reports an operand whose arrays differ after the call
   IF ev.ret.kind = "operand-changed" THEN "operand-changed-by-the-call" ELSE
+  IF ev.ret.kind = "result-shares-storage" THEN "result-shares-storage-with-the-operand" ELSE
   CASE ev.op = "permute" -> PermuteWhy(o, ev.args.order, ev.ret)
     [] ev.op = "reshape" -> ReshapeWhy(o, ev.args.shape, ev.args.old, ev.ret)
     [] ev.op = "squeeze" -> SqueezeWhy(o, ev.ret)
